@@ -16,8 +16,8 @@ def run(tier: str, seed: int) -> Report:
         "ALL pairs of single operators (full parameter grid, depth-2 chains); over the reduced grid %s of the depth-3 chains, each as 1+2, 2+1 and as the "
         "triple 1+1+1%s. Pairs: four composition routes (a >> b when b reads one table; DataOpArrow >> DataOpArrow; replace_leaves; eval with a map of pipelines), "
         "each composed pipeline evaluated on %d data sets (tables <= %d rows incl. empty, null, duplicate rows) and compared with running the segments one "
-        "after the other; DataOpArrow.dom/cod and ViewRepresentation.dom()/cod() compared with the real input / output columns. Triples: (a>>b)>>c vs a>>(b>>c) "
-        "as pipelines and as DataOpArrows, by == (both directions, !=) and by result. Data sets on which the result is not determined (ties in a window "
+        "after the other; DataOpArrow.dom/cod and ViewRepresentation.dom()/cod() compared with the real input / output columns. Triples: (a>>b)>>c and a>>(b>>c) "
+        "as pipelines and as DataOpArrows must both build and give the sequential result; whether the two are == is only counted (extra: assoc_structurally_different_but_same_result). Data sets on which the result is not determined (ties in a window "
         "order or at a limit cut) or on which convert_records' keying requirement is violated are skipped and counted. NONTRIVIAL iff at least one composed "
         "result was returned and compared with the sequential result."
         % (
